@@ -49,6 +49,12 @@ func (n *AhocorasickSlimtrie) AddSet(bitIndex int, patterns []string, typ consts
 	if n.err != nil {
 		return
 	}
+	if bitIndex < 0 || bitIndex >= len(n.toBuildTrie) {
+		// The per-set tables are fixed-size (MaxMatchSetLen); report an oversized rule
+		// program as a build error instead of indexing out of range.
+		n.err = fmt.Errorf("too many routing rules: match set index %v exceeds the supported maximum %v", bitIndex, len(n.toBuildTrie))
+		return
+	}
 nextPattern:
 	for _, d := range patterns {
 		switch typ {
